@@ -12,6 +12,7 @@ mod cli;
 mod core;
 mod gen;
 mod kx;
+mod mutate;
 mod props;
 mod sio;
 
